@@ -76,6 +76,7 @@ func (e *Env) Current(c string) {
 
 func (e *Env) WriteReport(r *Report) {
 	r.Tier, r.Seed = e.Tier, e.Seed
+	closeWatch.Wait()
 	sharedFindings.Lock()
 	for _, v := range sharedFindings.list {
 		r.Violate(r.Property+"-"+v.Key, v.Case, v.Detail)
